@@ -32,13 +32,14 @@ class Stats:
         self.checks_trivial = 0
         self.validated = 0
         self.obligations = 0
+        self.probes = 0
         self.reach = {}
         self.inconclusive = []
         self.max_depth = 0
 
     def merge(self, o):
         for k in ("paths", "aborted", "decisions", "queries", "solver_s", "checks", "checks_trivial",
-                  "validated", "obligations"):
+                  "validated", "obligations", "probes"):
             setattr(self, k, getattr(self, k) + getattr(o, k))
         for k, v in o.reach.items():
             self.reach[k] = self.reach.get(k, 0) + v
@@ -169,6 +170,49 @@ class Concrete(_Base):
 
     def note(self, key, value):
         pass
+
+
+class Probe(Concrete):
+    """Concrete mode with inputs drawn at random inside their declared ranges (recorded, so the run can be replayed).
+    Used only after a unit came back inconclusive: a counterexample found this way is reported like any other (it is
+    replayed on the real code first); finding none proves nothing and the unit stays inconclusive."""
+
+    def __init__(self, rng, presets):
+        super().__init__({}, strict=False)
+        self.rng = rng
+        self.presets = presets
+
+    def _draw(self, name, make):
+        if name not in self.inputs:
+            self.inputs[name] = make()
+        return self.inputs[name]
+
+    def int_(self, name, lo, hi):
+        r = self.rng
+        return int(self._draw(name, lambda: r.choice([lo, hi, r.randint(lo, hi), r.randint(lo, hi)])))
+
+    def bool_(self, name):
+        return bool(self._draw(name, lambda: self.rng.random() < 0.5))
+
+    def bytes_(self, name, n):
+        r = self.rng
+        # small values are over-represented: enum indices, flags and counts live there
+        return self._draw(name, lambda: bytes(r.choice((0, 1, 1, 2, 3, 4, 255)) if r.random() < 0.4 else r.randrange(256)
+                                              for _ in range(n)))
+
+    def decimal(self, name, klo, khi, denom):
+        return int(self._draw(name, lambda: self.rng.randint(klo, khi))) / denom
+
+    def real_(self, name, lo=None, hi=None):
+        from fractions import Fraction
+        a, b = (0 if lo is None else lo), (1000 if hi is None else hi)
+        v = self._draw(name, lambda: str(Fraction(self.rng.randint(int(a * 64), int(b * 64)), 64)))
+        return Fraction(v)
+
+    def choice(self, name, n):
+        if self.presets and name in self.presets:
+            return self.presets[name]
+        return int(self._draw(name, lambda: self.rng.randrange(n)))
 
 
 class Sym(_Base):
@@ -563,6 +607,13 @@ class Explorer:
         return self._cex(self, sym, site, inputs, detail)
 
     def run(self):
+        self._explore()
+        st = self.stats
+        if st.inconclusive and not any(f[0] == "violation" for f in self.findings):
+            self._probe()
+        return self
+
+    def _explore(self):
         t0 = time.time()
         st = self.stats
         while self.frontier:
@@ -584,6 +635,37 @@ class Explorer:
                 return self
         self.exhaustive = not st.inconclusive
         return self
+
+    def _probe(self, runs=3000, seconds=20.0):
+        """the solver could not decide this unit: look for a counterexample on random concrete inputs (sound when one
+        is found - it goes through the same replay as any other; the unit stays inconclusive otherwise)"""
+        import random
+        rng = random.Random(20201208)
+        t0 = time.time()
+        st = self.stats
+        for _ in range(runs):
+            if time.time() - t0 > seconds:
+                break
+            cc = Probe(rng, self.presets)
+            core.RATIO_MODE[0] = False
+            st.probes += 1
+            site = detail = None
+            try:
+                self.scenario(cc)
+            except (PathAbort, Inconclusive):
+                continue
+            except CheckFailed:
+                continue
+            except HarnessError:
+                raise
+            except Exception as e:  # noqa
+                site, detail = f"unexpected:{type(e).__name__}", repr(e)
+            if site is None and cc.failed:
+                site, detail = cc.failed[0], "found by concrete probing after an inconclusive symbolic exploration"
+            if site is not None:
+                kind, _ = self.on_counterexample(None, site, dict(cc.inputs), detail)
+                if kind == "violation":
+                    return
 
     def _one(self, prefix):
         st = self.stats
